@@ -171,6 +171,9 @@ CURATED = [
     (("add", "g", "G2"), ("new",), ("add", "g", "G3")),
     (("add", "g", "G1"), ("add", "h", "G2"), ("add", "g", "G2")),
     (("add", "g", "G1"), ("add", "g", "G1"), ("add", "g", "G3")),
+    (("add", "g", "G1"), ("read",), ("add", "g", "G2")),
+    (("add", "g", "G1"), ("read",), ("add", "g", "G3"), ("read",), ("add", "g", "G1")),
+    (("add", "g", "G2"), ("read",), ("remove", "g"), ("add", "g", "G1")),
     (("add", "g", "G4"),),
     (("add", "g", "G1"), ("add", "g", "G4"), ("new",)),
 ]
@@ -214,6 +217,11 @@ def run_sequences(idx, maxlen, variants=("G1", "G2", "G3"), extra=()):
                     elif op[0] == "new":
                         for k, v in initial_store(idx).items():
                             it.store[k] = v
+                    elif op[0] == "read":
+                        # a read between two writes (what a run does): the group as it is now; a memo filled here must not outlive the next write
+                        msg = check_state(idx, it, fs, spec, trail)
+                        if msg:
+                            return msg
                 # prefixes are sequences of their own: judge the final state only
                 return check_state(idx, it, fs, spec, trail)
 
